@@ -2,7 +2,7 @@
    written by ComputeRetailHash verifies. *)
 From Coq Require Import List ZArith Bool Lia.
 Import ListNotations.
-Require Import Naga.Dxil.BitsModel Naga.Dxil.BitsProofs Naga.Dxil.BitstreamModel Naga.Dxil.DxbcModel Naga.Dxil.DxbcProofs
+Require Import Naga.Dxil.BitsModel Naga.Dxil.BitsProofs Naga.Dxil.BitstreamModel Naga.Dxil.BitstreamProofs Naga.Dxil.DxbcModel Naga.Dxil.DxbcProofs
                Naga.Dxil.Md5Model Naga.Dxil.MetaModel Naga.Dxil.MetaProofs Naga.Dxil.CheckModel.
 Open Scope Z_scope.
 
@@ -27,7 +27,8 @@ Theorem check_container_sound : forall steps b r, check_container steps b = Some
                       find_part FourCC_HASH ps = Some h /\ p_data h = [0; 0; 0; 0] ++ md5 steps (pg_bitcode a)) /\
     (* bitstream and index check *)
     (forall l, r_stream r = Ok l ->
-       exists pd a, find_part FourCC_DXIL ps = Some pd /\ parse_program (p_data pd) = Some a /\ dec_bytes (pg_bitcode a) = Ok l) /\
+       exists pd a, find_part FourCC_DXIL ps = Some pd /\ parse_program (p_data pd) = Some a /\ dec_bytes (pg_bitcode a) = Ok l /\
+                    bits_of_bytes (pg_bitcode a) = enc_stream l /\ items_wf l /\ items_fits 2 32 l) /\
     (r_meta r = Some (Some None) ->
        exists l refs, r_stream r = Ok l /\ meta_refs l = Some refs /\ Forall ref_in_range refs).
 Proof.
@@ -49,7 +50,7 @@ Proof.
     intros E. apply list_eqb_eq in E. exists pd, a, h. unfold shader_hash_body in E. auto.
   - intros l. unfold opt_bind. destruct (find_part FourCC_DXIL ps) as [pd|] eqn:F1; [|discriminate].
     destruct (parse_program (p_data pd)) as [a|] eqn:F2; [|discriminate].
-    intros E. exists pd, a. auto.
+    intros E. exists pd, a. destruct (dec_bytes_sound _ _ E) as (? & _ & ? & ?). repeat split; auto.
   - unfold opt_bind. destruct (find_part FourCC_DXIL ps) as [pd|] eqn:F1; [|discriminate].
     destruct (parse_program (p_data pd)) as [a|] eqn:F2; [|discriminate].
     destruct (dec_bytes (pg_bitcode a)) as [l|e q] eqn:D; [|discriminate].
